@@ -1386,6 +1386,9 @@ cd {ROOT}
             if not created and os.path.exists(prettyBuildPath):
                 stepMessage(buildStep, "PRUNE", "{} (recipe changed)".format(prettyBuildPath),
                     WARNING)
+                # Invalidate first. If we are killed while pruning, the next
+                # run must not trust the (partially) emptied workspace.
+                BobState().resetWorkspaceState(prettyBuildPath, None)
                 emptyDirectory(prettyBuildPath)
                 created = True
             # invalidate build step
@@ -1436,6 +1439,9 @@ cd {ROOT}
         if somethingThere and packageDigest != oldPackageDigest:
             stepMessage(packageStep, "PRUNE", "{} (recipe changed)".format(prettyPackagePath),
                 WARNING)
+            # Invalidate first. If we are killed while pruning, the next
+            # run must not trust the (partially) emptied workspace.
+            BobState().resetWorkspaceState(prettyPackagePath, None)
             if os.path.islink(prettyPackagePath) or os.path.isfile(prettyPackagePath):
                 # Remove symlink or file which was left by a shared package
                 os.unlink(prettyPackagePath)
@@ -1593,6 +1599,9 @@ cd {ROOT}
         if prune:
             stepMessage(packageStep, "PRUNE", "{} ({})".format(prettyPackagePath,
                 reason), WARNING)
+            # Invalidate first. If we are killed while pruning, the next
+            # run must not trust the (partially) emptied workspace.
+            BobState().resetWorkspaceState(prettyPackagePath, None)
             emptyDirectory(prettyPackagePath)
             removePath(audit)
             BobState().resetWorkspaceState(prettyPackagePath, packageDigest)
